@@ -353,11 +353,13 @@ Print Assumptions wrapper_ignored_command_bypasses.
 Theorem wrapper_acceptability_table :
   (forall d, codes_acceptable d = false <-> exists c, d = DStatus c /\ grpc_failure_code c = true) /\
   (forall d, server_acceptable d = false <->
-     d = DCtxDeadline \/ d = DBreakerUnavailable \/ exists c, d = DStatus c /\ grpc_failure_code c = true) /\
+     d = DCtxDeadline \/ d = DBreakerUnavailable \/ d = DWrappedDeadline \/ d = DWrappedBreakerUnavailable \/
+     exists c, d = DStatus c /\ grpc_failure_code c = true) /\
   (forall d, redis_acceptable d = true <->
      d = DNil \/ d = DRedisNil \/ d = DWrappedRedisNil \/ d = DCtxCanceled \/ d = DWrappedCanceled) /\
   (forall d, sql_acceptable d = true <->
      d = DNil \/ d = DSqlNoRows \/ d = DSqlTxDone \/ d = DCtxCanceled \/ d = DWrappedCanceled \/ d = DSqlAcceptable \/
+     d = DWrappedSqlNoRows \/ d = DWrappedSqlTxDone \/
      exists i n, d = DSqlCustom i n /\ 1 <= i <= n) /\
   (forall d, sqlq_acceptable d = true <-> d = DSqlScanFail \/ sql_acceptable d = true) /\
   (forall h, rest_accepts h = true <-> h_code h < 500) /\ rest_accepts (HPanic None) = true.
